@@ -19,6 +19,7 @@ RULE = ("SEC1 on small curves: every point -> both encodings -> decode -> re-enc
 ASSUMPTIONS = ["E2 small-curve retargeting (see C03)", "OpenSSL via `cryptography` is the external PEM reader/writer",
                "vf/ref/base58_ref.py for WIF validity"]
 OBLIGATIONS = {
+    "history_sequences": "operation sequences (non-initial process states) explored",
     "sec1_wrong_len_for_prefix": "right prefix with the other length offered", "sec1_x_ge_p": "x >= p offered",
     "sec1_off_curve": "off-curve x / (x,y) offered", "sec1_hybrid": "hybrid prefix 06/07 offered",
     "wif_suffix_long": "a WIF suffix >= 71 bytes round-tripped", "wif_unknown_version": "a checksum-valid WIF with unknown version offered",
@@ -192,7 +193,24 @@ CASES = {"sec1": chk_sec1, "wif_rt": chk_wif_rt, "wif_str": chk_wif_str, "pem": 
 
 
 def run_case(kind, case):
+    if kind == "seq":
+        from vf import seqexplore
+        return seqexplore.replay(run_case, case)
     return CASES[kind](case)
+
+
+def seq_ops(job):
+    """both parities of the same x, compressed and uncompressed, WIF and (thorough) PEM, in every order"""
+    cv = job["curve"]
+    C = smallcurve.curve(cv)
+    ops = []
+    for d in (3, 5):
+        P = C.mul(d, C.G)
+        X = P[0].to_bytes(32, "big")
+        for b in (b"\x02" + X, b"\x03" + X, b"\x04" + X + P[1].to_bytes(32, "big"), b"\x04" + X + (C.p - P[1]).to_bytes(32, "big"),
+                  b"\x04" + X + ((P[1] + 1) % C.p).to_bytes(32, "big")):
+            ops.append(("sec1", {"curve": cv, "buf": b.hex()}))
+    return ops
 
 
 def jobs(tier, seed):
@@ -209,10 +227,15 @@ def jobs(tier, seed):
             js.append({"name": f"wif/str/{i}/{sh}", "part": "wif-str", "idx": i, "shard": [sh, 4], "weight": 4})
     for sh in range(8):
         js.append({"name": f"pem/{sh}", "part": "pem", "shard": [sh, 8], "weight": 4})
+    from vf.runner import seq_jobs
+    js += seq_jobs(2, curve=list(T[0]), weight=3)
     return js
 
 
 def run_job(job):
+    if job["part"] == "seq":
+        from vf.runner import run_seq_job
+        return run_seq_job(job, seq_ops(job), run_case)
     acc = Acc(job)
     part, seed, cv = job["part"], job["seed"], job.get("curve")
     if part == "sec1":
